@@ -210,6 +210,20 @@ Definition enc_minfo (e : list string * minfo) : sexp :=
 Definition enc_state (s : state) : sexp :=
   SL [enc_list enc_minfo (dest s); enc_list enc_fsent (fs s); enc_list (enc_list enc_str) (dirs s)].
 
+Definition dec_grow (s : sexp) : option grow_op :=
+  match s with
+  | SL [SA _; p; dt; sh; cells] =>
+      match dec_list dec_str p, dec_dtype dt, dec_list dec_nat sh, dec_list dec_Z cells with
+      | Some p, Some dt, Some sh, Some cells =>
+          match rev p with
+          | k :: rp => Some {| gpath := rev rp; gkey := k; gleaf := {| lshape := sh; ldtype := dt; lcells := cells; lsrc := MMElsewhere |} |}
+          | [] => None
+          end
+      | _, _, _, _ => None
+      end
+  | _ => None
+  end.
+
 Definition dispatch (cmd : string) (args : list sexp) : option sexp :=
   match cmd, args with
   | "encode", [o; t] =>
@@ -240,6 +254,23 @@ Definition dispatch (cmd : string) (args : list sexp) : option sexp :=
           Some (SL [enc_state (run_pool o ip t (permute order (tasks_of o t [])));
                     enc_res enc_state (run_sequential o ip t)])
       | _, _, _, _ => None
+      end
+  | "dtype-table", [] => Some (enc_list enc_str (map fst strdtype2dtype))
+  | "grow", [t; ops] =>
+      (* (grow <td> ((<kind> (path...) dtype (shape) (cells)) ...)) : the directory after the calls, from encode t *)
+      match dec_td t, dec_list dec_grow ops with
+      | Some t, Some ops =>
+          Some (enc_res enc_dir (bind (encode default_opts t) (fun d => Ok (snd (snd (grow_all ops t d))))))
+      | _, _ => None
+      end
+  | "grow-outcomes", [t; ops] =>
+      match dec_td t, dec_list dec_grow ops with
+      | Some t, Some ops =>
+          Some (match encode default_opts t with
+                | Ok d => enc_list (enc_res (fun _ => SA "unit")) (fst (grow_all ops t d))
+                | Raised e => enc_err e
+                end)
+      | _, _ => None
       end
   | _, _ => None
   end.
